@@ -415,15 +415,15 @@ Definition step (st : sys) (o : op) (ch : choice) : sys * out :=
     | RBox sl i b => let '(st', p) := do_sync s sl b st in (st', OOk p)
     end
   | Close s =>
-    (* do_close: deselect first; a read-write selection is then expunged,
-       which fails with NO when the remembered name is gone *)
+    (* do_close: deselect first; a read-write selection is then expunged;
+       when the remembered name is gone there is nothing to expunge (OK) *)
     match lookup s (sess st) with
     | None => (st, OBad)
     | Some sl =>
       if s_ro sl then (drop_sel s st, OOk PNone)
       else
         match find_box st (s_name sl) with
-        | None => (drop_sel s st, ONo)
+        | None => (drop_sel s st, OOk PNone)
         | Some (i, b) =>
           if i =? s_bid sl then
             (drop_sel s (remove_msgs i (fun m => mem (m_uid m) (s_view sl) && m_deleted m) st),
